@@ -9,7 +9,13 @@ wt="/tmp/sv/$id-$$"
 mkdir -p /tmp/sv
 git -C /repo worktree add -q --detach "$wt" HEAD || exit 2
 trap 'git -C /repo worktree remove --force "$wt" >/dev/null 2>&1; rm -rf "$wt"' EXIT
-if ! git -C "$wt" apply "$patch"; then echo "RESULT apply=FAILED"; exit 2; fi
+if ! git -C "$wt" apply "$patch" 2>/dev/null; then
+  # the patch was written against an earlier /repo HEAD (a later fix: commit touched its context): 3-way apply, then
+  # refresh the patch so that it applies to the current HEAD
+  if git -C "$wt" apply -3 "$patch" >/dev/null 2>&1 && ! git -C "$wt" diff --name-only --diff-filter=U | grep -q .; then
+    git -C "$wt" reset -q; git -C "$wt" diff > "$patch.rebased"; echo "note: patch 3-way applied; refreshed copy at $patch.rebased"
+  else echo "RESULT apply=FAILED"; exit 2; fi
+fi
 tests=$(cd "$wt" && PYTHONPATH="$wt/src" /venv/bin/python -m pytest -q -p no:cacheprovider 2>&1 | tail -1)
 echo "tests(with change): $tests"
 clean=$(cd /tmp && PYTHONPATH=/repo/src /venv/bin/python "$demo" 2>&1 | tail -2 | tr '\n' ' '); crc=$?
